@@ -27,6 +27,32 @@ pub struct Case {
     pub start_index: u32,
     /// 0 sorting new, 1 sorting new_or_single_it, 2 sequential new, 3 sequential new_or_single_it
     pub mode: u8,
+    /// how exact the size hint of the iterator handing over the sources is (sequential modes):
+    /// 0 exact, 1 (0, Some(n)), 2 (min(1,n), Some(n)), 3 (min(1,n), None), 4 (0, None)
+    #[serde(default)]
+    pub provider_hint: u8,
+}
+
+/// hands over the sources lazily with a legal but possibly inexact size hint (like filter/chain/peekable adaptors do)
+struct Provider<'a> {
+    inner: std::vec::IntoIter<Box<dyn Iterator<Item = DltMessage> + 'a>>,
+    hint: u8,
+}
+impl<'a> Iterator for Provider<'a> {
+    type Item = Box<dyn Iterator<Item = DltMessage> + 'a>;
+    fn next(&mut self) -> Option<Self::Item> {
+        self.inner.next()
+    }
+    fn size_hint(&self) -> (usize, Option<usize>) {
+        let n = self.inner.len();
+        match self.hint {
+            0 => (n, Some(n)),
+            1 => (0, Some(n)),
+            2 => (std::cmp::min(1, n), Some(n)),
+            3 => (std::cmp::min(1, n), None),
+            _ => (0, None),
+        }
+    }
 }
 
 fn make_iter<'a>(s: &Source, src_no: usize, counts: &mut Vec<Arc<crate::scripted::SrcCounts>>) -> Box<dyn Iterator<Item = DltMessage> + 'a> {
@@ -116,6 +142,7 @@ impl Check for C09 {
                 _ => u32::MAX - total - 1 - rng.below(3) as u32,
             },
             mode: rng.below(4) as u8,
+            provider_hint: *rng.pick(&[0u8, 0, 1, 2, 2, 3, 4]),
         }
     }
     fn run(c: &Case, ctx: &mut Ctx) -> Result<(), Violation> {
@@ -155,11 +182,22 @@ impl Check for C09 {
         let mut counts = vec![];
         let its: Vec<Box<dyn Iterator<Item = DltMessage>>> = c.sources.iter().enumerate().map(|(i, s)| make_iter(s, i, &mut counts)).collect();
         let single = c.sources.len() == 1;
+        let mut provider_exactly_one = single;
         let out: Vec<DltMessage> = match c.mode {
             0 => SortingMultiReaderIterator::new(c.start_index, its).collect(),
             1 => SortingMultiReaderIterator::new_or_single_it(c.start_index, its).collect(),
-            2 => SequentialMultiIterator::new(c.start_index, its.into_iter()).collect(),
-            _ => SequentialMultiIterator::new_or_single_it(c.start_index, its.into_iter()).collect(),
+            _ => {
+                let prov = Provider { inner: its.into_iter(), hint: c.provider_hint };
+                provider_exactly_one = prov.size_hint() == (1, Some(1));
+                if c.provider_hint != 0 {
+                    ctx.probe("inexact_provider_size_hint");
+                }
+                if c.mode == 2 {
+                    SequentialMultiIterator::new(c.start_index, prov).collect()
+                } else {
+                    SequentialMultiIterator::new_or_single_it(c.start_index, prov).collect()
+                }
+            }
         };
         ctx.fired_n("short_reads", counts.iter().map(|c| c.get().1).sum());
         ctx.sim_time(total as u128);
@@ -183,7 +221,8 @@ impl Check for C09 {
             }
         }
         // numbering
-        let single_shortcut = single && (c.mode == 1 || c.mode == 3);
+        // the documented shortcut: exactly one source announced -> it is returned as is (start index ignored)
+        let single_shortcut = (single && c.mode == 1) || (provider_exactly_one && c.mode == 3);
         for (p, m) in out.iter().enumerate() {
             let want = if single_shortcut { 1000 + p as u32 } else { c.start_index + p as u32 };
             if m.index != want {
@@ -235,7 +274,7 @@ impl Check for C09 {
         out
     }
     fn rule() -> &'static str {
-        "one run = 0-6 sources (recordings of simulated recorders: increasing, tied via coarse clocks, unordered via clock jumps, far-future clocks up to u64::MAX, empty) of 0-40 messages each, two thirds of them pulled lazily as DltMessageIterator over LowMarkBufReader over a scripted short-read source, merged by one of the four constructors (sorting/sequential x new/new_or_single_it) with start index in {0, 1, random, near u32::MAX}; every output message is attributed to (source, position) through its payload; non-trivial = more than one source and more than one message; distinct = hash of (mode, per-source lengths and first reception times)"
+        "one run = 0-6 sources (recordings of simulated recorders: increasing, tied via coarse clocks, unordered via clock jumps, far-future clocks up to u64::MAX, empty) of 0-40 messages each, two thirds of them pulled lazily as DltMessageIterator over LowMarkBufReader over a scripted short-read source, merged by one of the four constructors (sorting/sequential x new/new_or_single_it; the sequential ones receive the sources from a lazy provider whose size hint is exact or one of four legal inexact shapes) with start index in {0, 1, random, near u32::MAX}; every output message is attributed to (source, position) through its payload; non-trivial = more than one source and more than one message; distinct = hash of (mode, per-source lengths and first reception times)"
     }
     fn assumptions() -> Vec<&'static str> {
         vec![
@@ -250,6 +289,6 @@ impl Check for C09 {
         vec!["recorders (generator)", "underlying readers (ScriptedSource)"]
     }
     fn required_reach() -> Vec<&'static str> {
-        vec!["empty_source", "tied_reception_times", "unordered_source", "short_reads", "far_future_clock", "sorting_merge_runs", "sequential_chain_runs"]
+        vec!["empty_source", "tied_reception_times", "unordered_source", "short_reads", "far_future_clock", "sorting_merge_runs", "sequential_chain_runs", "inexact_provider_size_hint"]
     }
 }
